@@ -82,7 +82,7 @@ def fs_obligations(mode, tier, sc):
         vname = "".join("_" + v.split("_")[1][0].lower() + v[-1] for v in var if v.startswith(("GFS_FAULT_KIND", "GFS_DRAIN_POLICY")))
         obs.append(Obligation(
             name="%s_%s_k%02d%s" % (mname, ("tmpdir_json%s" % ("first" if jf else "last")) if tmp else "direct", k, vname), harness="C09/fs_run.c",
-            defines=["GFS_MODE=%d" % mode, "GFS_TMPDIR=%d" % tmp, "GFS_EV_AT=%d" % k, "GFS_BENIGN_SHORT=0"] + (["GFS_JSON_FIRST=%d" % jf] if tmp else []) + (["EXPECT_EVENT=%d" % (1 if k < nslots else 0), "ATTR_FLUSH=1"]) + (["CONCRETE_SIZES"] if (mode == 2 or tmp) else []) + var,
+            defines=["GFS_MODE=%d" % mode, "GFS_TMPDIR=%d" % tmp, "GFS_EV_AT=%d" % k, "GFS_BENIGN_SHORT=0"] + (["GFS_JSON_FIRST=%d" % jf] if tmp else []) + (["EXPECT_EVENT=%d" % (1 if k < nslots else 0), "ATTR_FLUSH=1"]) + (["CONCRETE_SIZES"] if (mode == 2 or tmp) else []) + (["GFS_NO_SYMBOLIC_EINTR"] if (tmp and not var) else []) + var,
             unwind=70, unwindset=["ovni_ev_add:3", "add_flush_events:3", "write_evbuf.0:5", "move_thread_to_final.0:5",
                                   "move_thdir_to_final.0:4", "move_thdir_to_final.1:5", "v_readdir.0:4"],
             native_srcs=["src/parson.c"], native_cflags=["-Wl,--allow-multiple-definition"],
